@@ -21,6 +21,8 @@ import (
 	"sort"
 	"strings"
 
+	log "github.com/sirupsen/logrus"
+
 	"github.com/gopherjs/gopherjs/build/cache"
 	"github.com/gopherjs/gopherjs/compiler/linkname"
 	"github.com/gopherjs/gopherjs/compiler/sources"
@@ -34,6 +36,9 @@ func Guard(scratch string) string {
 		fmt.Fprintf(os.Stderr, "c20 child: refusing to run, user cache dir %q is not below scratch %q\n", d, scratch)
 		os.Exit(97)
 	}
+	// the cache logs every miss and every damaged entry through logrus; with hundreds of
+	// thousands of deliberate misses the formatting dominates, so only errors are kept
+	log.SetLevel(log.ErrorLevel)
 	return filepath.Join(d, "gopherjs", "build_cache")
 }
 
